@@ -315,17 +315,18 @@ func main() {
 
 KNOWN = {
     # reproducers of recorded findings: (source, regex on `go vet` output)
-    "KF-C04-2": ('''type Cfg struct{ N int }
+}
+
+# reproducers of repaired defects (fixed: entries of known_findings.json): they must compile now, and a regression is a violation
+REPAIRED = {
+    # the error of eg.Wait() returned next to a result type that has no nil (repaired; was KF-C04-2)
+    "nil_for_value_result": '''type Cfg struct{ N int }
 type Dep struct{ N int }
 func NewDep() (*Dep, error) { return &Dep{}, nil }
 func NewOther() *int { n := 1; return &n }
 func NewCfg(d *Dep, o *int) Cfg { return Cfg{N: *o} }
 var _ = kessoku.Inject[Cfg]("InitCfg", kessoku.Async(kessoku.Provide(NewDep)), kessoku.Async(kessoku.Provide(NewOther)), kessoku.Provide(NewCfg))
-''', r"cannot use nil as Cfg value in return statement"),
-}
-
-# reproducers of repaired defects (fixed: entries of known_findings.json): they must compile now, and a regression is a violation
-REPAIRED = {
+''',
     # the errgroup local next to a variable named eg (type Eg); a second async injector in one file (both repaired)
     "eg_type": '''type Eg struct{ N int }
 type Dep struct{ N int }
@@ -476,6 +477,14 @@ INJECTOR_NAMES = {
 }
 
 
+# a result of an UNEXPORTED type of another package (lib.NewClient() *client): the var block of an injector with goroutines
+# has to write the type, which the user's package cannot name (known finding KF-C04-24; without Async `:=` needs no type)
+UNEXPORTED_TYPE = {
+    "lib/l.go": 'package lib\n\ntype client struct{ S string }\n\nfunc NewClient() *client { return &client{S: "c"} }\n\ntype Other struct{ S string }\n\nfunc NewOther() *Other { return &Other{S: "o"} }\n\ntype App struct{ S string }\n\nfunc NewApp(c *client, o *Other) *App { return &App{S: c.S + o.S} }\n',
+    "k.go": 'package main\n\nimport (\n\t"context"\n\n\t"github.com/mazrean/kessoku"\n\t"vscratch/known_KF_C04_24/lib"\n)\n\nvar _ = kessoku.Inject[*lib.App]("InitApp", kessoku.Async(kessoku.Provide(lib.NewClient)), kessoku.Async(kessoku.Provide(lib.NewOther)), kessoku.Provide(lib.NewApp))\n\nfunc main() { _ = InitApp(context.Background()) }\n',
+}
+
+
 def write_pkg(mod, name, files):
     d = os.path.join(mod, name)
     os.makedirs(d, exist_ok=True)
@@ -556,6 +565,7 @@ def _stage(seed, tier, key="N-x"):
     pkgs.append(("injector_names", INJECTOR_NAMES, ["k.go"], None, dict(kind="naming: injector names against generated imports and variables", run=True)))
     pkgs.append(("xset", XSET, ["k.go"], "KF-C10-1", dict(kind="known finding reproducer (Set of another package)", signature="no vet signature: the file compiles",
                                                        expect_params={"k_band.go": {"InitB": []}}, known_params={"k_band.go": {"InitB": ["*prov.A"]}})))
+    pkgs.append(("known_KF_C04_24", UNEXPORTED_TYPE, ["k.go"], "KF-C04-24", dict(kind="known finding reproducer", signature=r"(not exported by package lib|cannot refer to unexported|unexported)")))
     pkgs.append(("known_KF_C04_3", CH_PACKAGE, ["k.go"], "KF-C04-3", dict(kind="known finding reproducer", signature=r"ch\.Client is not a type")))
     for kid, (body, sig) in KNOWN.items():
         pkgs.append(("known_" + kid.replace("-", "_"), {"k.go": wrap(body)}, ["k.go"], kid, dict(kind="known finding reproducer", signature=sig)))
